@@ -340,7 +340,31 @@ def _check_file_lengths(case):
             pass
     else:
         viols.append(Viol("querywav-raised", f"width={width} rate={rate} n={n}: {q!r}"))
-    return 4, "ok", (width, rate, n), viols
+    # a QueryWav stands for the file it was built from: built from a RELATIVE name, it still does after the caller has moved on to another
+    # working directory that holds another recording of the same name (a batch script stepping through session folders)
+    here, base = os.path.split(fn)
+    other = os.path.join(here, "next session")
+    os.makedirs(other, exist_ok=True)
+    W.write_riff(os.path.join(other, base), [(-x if x else 1) for x in s][::-1] + [0, 0], width, rate)
+    old = os.getcwd()
+    try:
+        os.chdir(here)
+        st, q, _ = call(audio.QueryWav, base)
+        os.chdir(other)
+        if st == "ok":
+            st, fr, _ = call(q.getFrames)
+            if st == "exc" or W.unpack(fr, width) != s:
+                viols.append(Viol("querywav-follows-the-working-directory",
+                                  f"QueryWav({base!r}) built in one directory, queried after os.chdir to a directory with another {base!r}: getFrames() gives "
+                                  f"{fr if st == 'exc' else W.unpack(fr, width)[:8]!r}, the recording it was built from holds {s[:8]}"))
+            try:
+                q.audiofile.close()
+            except Exception:
+                pass
+    finally:
+        os.chdir(old)
+        os.remove(os.path.join(other, base))
+    return 5, "ok", (width, rate, n), viols
 
 
 def _check_copy_independence(case):
